@@ -11,6 +11,23 @@ TB = ("Lean 4.33.0 kernel (+ leanchecker in the thorough tier); axioms propext/C
       "correspondence drivers (T-corr) are unverified programs. ")
 
 CHECKS = {
+    "C06": dict(
+        text=("Proof (Lean 4) over the REGENERATED comparison facts (translator re-extracts, on every run, the icmp predicates, operand "
+              "order, subtraction constants and clamp skeleton that compiler.go / list_types.go emit) interpreted over BitVec 64: for all "
+              "2^64 x 2^64 (index, length) pairs the list index check (value position and assignment-target/Referenz position) passes iff "
+              "1 <= index <= length and then addresses element index-1 (incl. index = -2^63 where index-1 wraps); Byte indices after "
+              "zero-extension; list slices: empty list -> empty, bounds clamped into 1..length, Laufzeitfehler iff crossed after clamping, "
+              "otherwise exactly b-a+1 elements from a-1, inside the list; text index/replace/slice error exactly outside the domain (C "
+              "runtime model shared with C12). Tie: T-gen (a changed predicate changes the generated definition and the theorem over it "
+              "stops checking; the check then evaluates the generated check against the specification on a boundary grid and compiles the "
+              "differing (index,length) as a program) + compiled programs for Zahlen Liste / Text Liste / Text, lengths 0,1,3 (thorough "
+              "0..6), every access form (rvalue, assignment target, Referenz argument, nested, three slice forms), every index -2..n+2 and "
+              "the 64-bit extremes, Variable casts, `...`; outcome class, exit status and output judged against the specification."),
+        note=TB + "Assumes list lengths are non-negative and that LLVM keeps the emitted branch. Variable-cast and `...` behaviour are "
+             "covered by compiled programs only (no theorem).",
+        technique="Lean 4 proof over regenerated bounds predicates (BitVec 64) + compiled-program correspondence",
+        ref="§5 C06",
+    ),
     "C12": dict(
         text=("Proof (Lean 4) over byte-level L1 models of utf8.c, operators.c, ddptypes.c and the compiler's text iteration: for ALL "
               "scalar values except U+0000 (case split on the four encoding ranges, no enumeration) decode∘encode = id, utf8_num_bytes / "
